@@ -283,6 +283,7 @@ type world struct {
 	delivered map[string][]ev // host -> events of the opened stream
 	fetchFail map[string]bool
 	timeouts  int
+	holds     map[string]map[id2]bool // Fetch API cases: host -> the documents it stores (nil: every requested one)
 }
 
 func newWorld() *world {
@@ -382,10 +383,13 @@ var extraID = id2{999, 9}
 // applyOps turns the requested id list into the events the store delivers.
 // ops: m<k> miss, e<k> empty payload, b<k> error after k events, t<k> EOF after k events, x<k> unrequested doc at k,
 // d<k> doc k twice in a row, D<k> doc k again at the end, s<k> swap k and k+1.
-func applyOps(host string, req []id2, ops string) []ev {
+func applyOps(host string, req []id2, ops string, holds map[string]map[id2]bool) []ev {
 	evs := make([]ev, len(req))
 	for i, id := range req {
 		evs[i] = ev{id: id, data: dataToken(host, id)}
+		if holds != nil && !holds[host][id] {
+			evs[i].data = 0 // the store does not have the document: an empty block carrying the ID
+		}
 	}
 	if ops == "" || ops == "-" {
 		return evs
@@ -481,7 +485,7 @@ func (f *fake) Fetch(ctx context.Context, in *storeapi.FetchRequest, _ ...grpc.C
 		w.fetchFail[f.host] = true
 		return nil, status.Error(codes.Unavailable, "scripted fetch failure")
 	}
-	evs := applyOps(f.host, req, ops)
+	evs := applyOps(f.host, req, ops, w.holds)
 	w.delivered[f.host] = evs
 	return &fetchStream{evs: evs}, nil
 }
@@ -1037,7 +1041,7 @@ func copyMap[V any](m map[string]V) map[string]V {
 // snapshot must be called with w.mu held
 func (w *world) snapshot() *world {
 	return &world{search: copyMap(w.search), gated: copyMap(w.gated), fetchOps: copyMap(w.fetchOps), hint: w.hint, called: copyMap(w.called),
-		fetchReq: copyMap(w.fetchReq), fetchHint: copyMap(w.fetchHint), delivered: copyMap(w.delivered), fetchFail: copyMap(w.fetchFail), timeouts: w.timeouts}
+		fetchReq: copyMap(w.fetchReq), fetchHint: copyMap(w.fetchHint), delivered: copyMap(w.delivered), fetchFail: copyMap(w.fetchFail), timeouts: w.timeouts, holds: w.holds}
 }
 
 // runAPI sends the case through proxyapi's Search handler (doSearch, processSearchErrors, makeProtoDocs)
@@ -1100,6 +1104,261 @@ func runAPI(c tcase) (impl string, w *world) {
 	w = w0.snapshot()
 	w0.mu.Unlock()
 	return impl, w
+}
+
+type exportStream struct {
+	grpc.ServerStream
+	ctx  context.Context
+	sent []sdoc
+}
+
+func (s *exportStream) Context() context.Context { return s.ctx }
+func (s *exportStream) Send(r *seqproxyapi.ExportResponse) error {
+	id, err := seq.FromString(r.Doc.Id)
+	if err != nil {
+		return err
+	}
+	s.sent = append(s.sent, sdoc{id: id2{uint64(id.MID), uint64(id.RID)}, data: tokenOf(r.Doc.Data)})
+	return nil
+}
+
+type fetchSrvStream struct {
+	grpc.ServerStream
+	ctx  context.Context
+	sent []sdoc
+}
+
+func (s *fetchSrvStream) Context() context.Context { return s.ctx }
+func (s *fetchSrvStream) Send(d *seqproxyapi.Document) error {
+	id, err := seq.FromString(d.Id)
+	if err != nil {
+		return err
+	}
+	s.sent = append(s.sent, sdoc{id: id2{uint64(id.MID), uint64(id.RID)}, data: tokenOf(d.Data)})
+	return nil
+}
+
+func fmtIDData(l []sdoc) string {
+	if len(l) == 0 {
+		return "-"
+	}
+	s := make([]string, len(l))
+	for i, d := range l {
+		s[i] = fmt.Sprintf("%s=%d", d.id, d.data)
+	}
+	return strings.Join(s, ",")
+}
+
+// runExport sends the case through proxyapi's Export handler (newest first: the request has no order)
+func runExport(c tcase) (impl string, endedOK bool, sent []sdoc, w *world) {
+	c.rev = false
+	w0, si, _ := buildCase(c)
+	api := proxyapi.VerifNewGrpcV1C16T(si, 20*time.Second, 20*time.Second)
+	req := &seqproxyapi.ExportRequest{
+		Query:  &seqproxyapi.SearchQuery{Query: "message:x", From: timestamppb.New(time.UnixMilli(0)), To: timestamppb.New(time.UnixMilli(1 << 40))},
+		Size:   int64(c.size),
+		Offset: int64(c.off),
+	}
+	st := &exportStream{ctx: context.Background()}
+	func() {
+		defer func() {
+			if r := recover(); r != nil {
+				impl = "panic"
+			}
+		}()
+		err := api.Export(req, st)
+		switch {
+		case err == nil:
+			impl, endedOK = "ok end=ok docs="+fmtIDData(st.sent), true
+		case status.Code(err) == codes.Unavailable: // the stream is closed with "partial response" after the documents
+			impl = "ok end=error docs=" + fmtIDData(st.sent)
+		case status.Code(err) == codes.InvalidArgument:
+			impl = "err invalid-argument"
+		case status.Code(err) == codes.Internal:
+			impl = "err internal"
+		default:
+			impl = "err unknown"
+		}
+	}()
+	w0.mu.Lock()
+	w = w0.snapshot()
+	w0.mu.Unlock()
+	return impl, endedOK, st.sent, w
+}
+
+// cleanAnswer: did every shard of the consulted tier answer, without store-reported errors
+func cleanAnswer(c tcase, w *world) (bool, string) {
+	tier, tn := c.hot, byte('h')
+	if c.hotRead {
+		tn = 'r'
+	}
+	for h, n := range w.called {
+		if h[0] == 'c' && n > 0 {
+			tier, tn = c.cold, 'c'
+		}
+	}
+	for sIdx := range tier {
+		got, nerr := false, 0
+		for rep, cl := range tier[sIdx] {
+			if cl.kind == 'r' && cl.code == 'n' && w.called[hostName(tn, sIdx, rep)] > 0 {
+				got, nerr = true, nerr+cl.nerr
+			}
+		}
+		if !got || nerr > 0 {
+			return false, fmt.Sprintf("shard %d of the consulted tier did not answer cleanly (answered=%v, store-reported errors=%d)", sIdx, got, nerr)
+		}
+	}
+	return true, ""
+}
+
+// ---- Fetch API (Ingestor.Documents): every ID is asked from every store
+
+type fcase struct {
+	ids   []id2
+	hosts int
+	holds map[string][]id2  // host -> documents it stores
+	fb    map[string]string // host -> stream misbehaviour
+}
+
+func (c fcase) String() string {
+	var hs, fb []string
+	for _, h := range vh.SortedKeys(c.holds) {
+		hs = append(hs, h+":"+fmtIDs(c.holds[h]))
+	}
+	for _, h := range vh.SortedKeys(c.fb) {
+		fb = append(fb, h+":"+c.fb[h])
+	}
+	return fmt.Sprintf("fcase ids=%s hosts=%d holds=%s fb=%s", fmtIDs(c.ids), c.hosts, vh.JoinStrs(hs, ";"), vh.JoinStrs(fb, ";"))
+}
+
+func parseFCase(line string) (fcase, error) {
+	c := fcase{holds: map[string][]id2{}, fb: map[string]string{}}
+	f := strings.Fields(line)
+	if len(f) == 0 || f[0] != "fcase" {
+		return c, fmt.Errorf("not an fcase line")
+	}
+	parseIDList := func(s string) []id2 {
+		var r []id2
+		if s == "-" || s == "" {
+			return r
+		}
+		for _, x := range strings.Split(s, ",") {
+			if id, err := parseID(x); err == nil {
+				r = append(r, id)
+			}
+		}
+		return r
+	}
+	for _, kv := range f[1:] {
+		p := strings.SplitN(kv, "=", 2)
+		if len(p) != 2 {
+			continue
+		}
+		switch p[0] {
+		case "ids":
+			c.ids = parseIDList(p[1])
+		case "hosts":
+			c.hosts, _ = strconv.Atoi(p[1])
+		case "holds", "fb":
+			if p[1] == "-" {
+				continue
+			}
+			for _, x := range strings.Split(p[1], ";") {
+				hv := strings.SplitN(x, ":", 2)
+				if len(hv) != 2 {
+					continue
+				}
+				if p[0] == "holds" {
+					c.holds[hv[0]] = parseIDList(hv[1])
+				} else {
+					c.fb[hv[0]] = hv[1]
+				}
+			}
+		}
+	}
+	return c, nil
+}
+
+func runFetchAPI(c fcase) (impl string, sent []sdoc, w *world) {
+	w0 := newWorld()
+	w0.holds = map[string]map[id2]bool{}
+	clients := map[string]storeapi.StoreApiClient{}
+	var hosts []string
+	for i := 0; i < c.hosts; i++ {
+		h := hostName('h', i, 0)
+		hosts = append(hosts, h)
+		clients[h] = &fake{host: h, w: w0}
+		w0.holds[h] = map[id2]bool{}
+		for _, id := range c.holds[h] {
+			w0.holds[h][id] = true
+		}
+		w0.fetchOps[h] = c.fb[h]
+	}
+	shards := make([][]string, len(hosts))
+	for i, h := range hosts {
+		shards[i] = []string{h}
+	}
+	empty := &stores.Stores{}
+	si := search.NewIngestor(search.Config{HotStores: &stores.Stores{Shards: shards}, HotReadStores: empty, ReadStores: empty, WriteStores: empty}, clients)
+	api := proxyapi.VerifNewGrpcV1C16T(si, 20*time.Second, 20*time.Second)
+	req := &seqproxyapi.FetchRequest{}
+	for _, id := range c.ids {
+		req.Ids = append(req.Ids, seq.ID{MID: seq.MID(id[0]), RID: seq.RID(id[1])}.String())
+	}
+	st := &fetchSrvStream{ctx: context.Background()}
+	func() {
+		defer func() {
+			if r := recover(); r != nil {
+				impl = "panic"
+			}
+		}()
+		err := api.Fetch(req, st)
+		switch {
+		case err == nil:
+			impl = "ok " + fmtIDData(st.sent)
+		case status.Code(err) == codes.Internal:
+			impl = "err internal"
+		default:
+			impl = "err " + status.Code(err).String()
+		}
+	}()
+	w0.mu.Lock()
+	w = w0.snapshot()
+	w0.mu.Unlock()
+	return impl, st.sent, w
+}
+
+func genFCase(r *vh.RNG) fcase {
+	c := fcase{hosts: r.Range(1, 4), holds: map[string][]id2{}, fb: map[string]string{}}
+	n := r.Range(0, 5)
+	for k := 0; k < n; k++ {
+		c.ids = append(c.ids, id2{uint64(30 - 2*k), uint64(r.Intn(2))})
+	}
+	twice := r.Chance(1, 6)
+	for _, id := range c.ids {
+		if r.Chance(1, 6) {
+			continue // nobody has it
+		}
+		h := hostName('h', r.Intn(c.hosts), 0)
+		c.holds[h] = append(c.holds[h], id)
+		if twice && r.Chance(1, 2) { // a second copy (replica)
+			h2 := hostName('h', r.Intn(c.hosts), 0)
+			if h2 != h {
+				c.holds[h2] = append(c.holds[h2], id)
+			}
+		}
+	}
+	fbPct := []int{0, 25, 60}[r.Intn(3)]
+	for i := 0; i < c.hosts; i++ {
+		if r.Chance(fbPct, 100) {
+			ops := fetchOpsAlphabet[r.Intn(len(fetchOpsAlphabet))]
+			if ops != "X" && r.Chance(1, 4) {
+				ops += "," + fetchOpsAlphabet[r.Intn(len(fetchOpsAlphabet)-1)]
+			}
+			c.fb[hostName('h', i, 0)] = ops
+		}
+	}
+	return c
 }
 
 // sharedIDs: does some ID occur in the answers of two different shards of the same tier?
@@ -1589,9 +1848,39 @@ func main() {
 		}
 	}
 
+	chExport := vh.NewChannel("export", "real proxyapi Export handler (doSearch, then every item of the document stream with the Id taken from the document) vs SV.ProxyApi.apiExport: error class before anything is sent, or the (id, bytes) pairs sent and how the stream ends; non-trivial = a fault was injected")
 	chAPI := vh.NewChannel("api", "real proxyapi Search handler (doSearch, processSearchErrors, makeProtoDocs) over the real Ingestor and the same fakes vs SV.ProxyRead.api: status error / refused / response with partial flag, IDs and document bytes; non-trivial = some replica failed/refused, a store reported errors, or a fetch stream misbehaved")
 	skipped := 0
 	for _, c := range cases {
+		{
+			implX, endedOK, sentX, wx := runExport(c)
+			orderX, behavX, unkX := fetchTrace(wx)
+			sharedX := sharedIDs(c.hot) || sharedIDs(c.cold)
+			if unkX <= 1 && !(sharedX && len(wx.fetchReq) > 0) && wx.timeouts == 0 {
+				wh, wc := normWinner(c.hot, c.wh), normWinner(c.cold, c.wc)
+				chExport.Add(fmt.Sprintf("export %s %s %d %d %d %s %s", fmtTier(c.hot, arrivalOrder(c.hot, wh)), fmtTier(c.cold, arrivalOrder(c.cold, wc)),
+					c.off, c.size, c.hint, vh.JoinInts(orderX), vh.JoinStrs(behavX, "|")), implX, !faultFree(c), "answer="+strings.Join(strings.Fields(implX)[:min(2, len(strings.Fields(implX)))], "-"))
+			}
+			if endedOK {
+				if clean, why := cleanAnswer(c, wx); !clean {
+					rep.Violate(vh.Violation{Site: "proxyapi/grpc_export.go:Export", Class: "incomplete-as-complete", What: "Export streamed its documents and ended with status OK although " + why + ": the client cannot tell the export is incomplete", Replay: []string{c.String()}})
+				}
+			}
+			for _, d := range sentX { // every exported document carries bytes some store of the deployment delivered for that ID
+				okBytes := d.data == 0
+				for h, evs := range wx.delivered {
+					for _, e := range evs {
+						if !e.err && e.id == d.id && e.data == d.data && dataToken(h, d.id) == d.data {
+							okBytes = true
+						}
+					}
+				}
+				if !okBytes {
+					rep.Violate(vh.Violation{Site: "proxyapi/grpc_export.go:Export", Class: "docs-foreign-bytes", What: fmt.Sprintf("exported document %s carries bytes no store delivered for that ID", d.id), Replay: []string{c.String()}})
+					break
+				}
+			}
+		}
 		{
 			implAPI, wa := runAPI(c)
 			order, behav, unk := fetchTrace(wa)
@@ -1648,7 +1937,97 @@ func main() {
 	}
 	rep.AddChannel(chFull, o.Driver)
 	rep.AddChannel(chAPI, o.Driver)
+	rep.AddChannel(chExport, o.Driver)
 	rep.AddOracle(orc)
+
+	// ---- Fetch API
+	chFetch := vh.NewChannel("fetchapi", "real proxyapi Fetch handler (Ingestor.Documents: expandIDsBySources, FetchDocsStream, uniqueIDIterator; Id taken from the document) vs SV.ProxyApi.apiFetch on the recorded store deliveries; non-trivial = a store misbehaved or a document is missing")
+	orcF := vh.NewOracle("fetch.property", "on the real Fetch handler: error, or exactly one document per requested ID in request order, its bytes empty or the ones a store delivered for that ID, and never empty when its only holder delivered everything in order; non-trivial = a fault was injected and the request succeeded")
+	var fcases []fcase
+	if replaying {
+		lines, _ := vh.ReadReplay(o.Replay)
+		for _, l := range lines {
+			if c, err := parseFCase(l); err == nil {
+				fcases = append(fcases, c)
+			}
+		}
+	} else {
+		for i := 0; i < o.Pick(1500, 30000); i++ {
+			fcases = append(fcases, genFCase(rng))
+		}
+	}
+	fskipped := 0
+	for _, c := range fcases {
+		impl, sent, w := runFetchAPI(c)
+		order, behav, unk := fetchTrace(w)
+		holders := map[id2]int{}
+		for _, ids := range c.holds {
+			for _, id := range ids {
+				holders[id]++
+			}
+		}
+		multi := false
+		for _, n := range holders {
+			if n > 1 {
+				multi = true
+			}
+		}
+		faulty := len(c.fb) > 0 || len(holders) < len(c.ids)
+		if unk <= 1 && !multi {
+			var srcs []int
+			for i := 0; i < c.hosts; i++ {
+				srcs = append(srcs, srcNat(hostName('h', i, 0)))
+			}
+			chFetch.Add(fmt.Sprintf("fetchapi %s %s %s %s", fmtIDs(c.ids), vh.JoinInts(srcs), vh.JoinInts(order), vh.JoinStrs(behav, "|")), impl, faulty, "answer="+strings.Fields(impl)[0], fmt.Sprintf("hosts=%d", c.hosts))
+		} else {
+			fskipped++
+		}
+		orcF.Case(c.String(), faulty && strings.HasPrefix(impl, "ok"), "answer="+strings.Fields(impl)[0])
+		if !strings.HasPrefix(impl, "ok") {
+			continue
+		}
+		bad := func(class, what string) {
+			rep.Violate(vh.Violation{Site: "proxyapi/grpc_fetch.go:Fetch", Class: class, What: what, Replay: []string{c.String()}})
+		}
+		if len(sent) != len(c.ids) {
+			bad("fetch-misaligned", fmt.Sprintf("%d IDs requested, %d documents sent", len(c.ids), len(sent)))
+			continue
+		}
+		for i, d := range sent {
+			if d.id != c.ids[i] {
+				bad("fetch-misaligned", fmt.Sprintf("document %d carries ID %s, the %d-th requested ID is %s", i, d.id, i, c.ids[i]))
+				break
+			}
+			if d.data != 0 {
+				okBytes := false
+				for h, evs := range w.delivered {
+					for _, e := range evs {
+						if !e.err && e.id == d.id && e.data == d.data && dataToken(h, d.id) == d.data {
+							okBytes = true
+						}
+					}
+				}
+				if !okBytes {
+					bad("fetch-foreign-bytes", fmt.Sprintf("document %s carries bytes no store delivered for that ID", d.id))
+					break
+				}
+				continue
+			}
+			// empty although a well-behaved store holds it
+			for h, ids := range c.holds {
+				for _, id := range ids {
+					if id == d.id && (c.fb[h] == "" || c.fb[h] == "-") {
+						bad("fetch-doc-dropped", fmt.Sprintf("store %s holds %s and delivered every requested document in order, but the response carries an empty document", h, d.id))
+					}
+				}
+			}
+		}
+	}
+	if fskipped > 0 {
+		rep.Note("fetchapi: %d cases not compared with the model (a document held by two stores, or two streams with unrequested documents: the per-ID map iteration order decides) - checked by the oracle only", fskipped)
+	}
+	rep.AddChannel(chFetch, o.Driver)
+	rep.AddOracle(orcF)
 
 	if !replaying {
 		componentChannels(rep, o, rng)
